@@ -185,6 +185,7 @@ func genC17(s uint64, idx int) *Plan {
 				p.Zone.Fail[name+"/"+typ] = core.Pick(r, []string{"servfail", "nxdomain"})
 			}
 		}
+		h.Space = nHosts > 1 && core.Chance(r, 1, 6)
 		p.Hosts = append(p.Hosts, h)
 	}
 
